@@ -377,6 +377,21 @@ func c16Layout(p *an.Prog, r *an.Report) {
 			parts = append(parts, staticLen(c.Call.Args[1]))
 		}
 	}
+	if len(parts) == 0 {
+		// not an append chain: a buffer of the final size filled by adjacent copies
+		b := an.NewBounds(p)
+		for _, ret := range an.NewFlow(p).OkReturns(enc) {
+			if len(ret.Results) == 0 {
+				continue
+			}
+			if vs, why := bufferParts(b, ret.Results[0], 0); why == "" && len(vs) > 0 {
+				for _, v := range vs {
+					parts = append(parts, staticLen(v))
+				}
+				break
+			}
+		}
+	}
 	wantEnc := []string{"32|?", "12", "?", "16"}
 	okEnc := len(parts) == 4
 	for i := range parts {
